@@ -833,6 +833,168 @@ def _probe_slicing(rng, tier):
     return out
 
 
+# ---- slicing with every optional constructor keyword set ----
+def ffs_shift2(angle):
+    """Flying-focal-spot-like source shift (2-d): depends on the angle."""
+    angle = np.array(angle, dtype=float, ndmin=1)
+    return np.stack([0.2 * np.sin(angle), 0.1 + 0.05 * angle], axis=-1)
+
+
+def ffs_shift3(angle):
+    angle = np.array(angle, dtype=float, ndmin=1)
+    return np.stack([0.2 * np.sin(angle), 0.1 + 0.05 * angle, -0.15 * np.cos(angle)], axis=-1)
+
+
+def const_shift2(angle):
+    """Constant detector offset, a DIFFERENT function from the source shift."""
+    return [-0.3, 0.25]
+
+
+def const_shift3(angle):
+    return [-0.3, 0.25, 0.4]
+
+
+# every optional constructor keyword (named and **kwargs) with a distinctive non-default value
+_SLICE_KW = {
+    'Parallel2dGeometry': dict(det_pos_init=[3.0, -1.0], det_axis_init=[1.0, 2.0], translation=[0.5, -1.5], check_bounds=False),
+    'Parallel3dAxisGeometry': dict(axis=[1.0, 2.0, 2.0], det_pos_init=[2.0, -1.0, 0.5], det_axes_init=[[1.0, 1.0, 0.0], [0.0, 1.0, 3.0]],
+                                   translation=[0.5, -1.5, 2.0], check_bounds=False),
+    'FanBeamGeometry': dict(src_radius=3.0, det_radius=2.0, det_curvature_radius=4.5, src_to_det_init=[1.0, 2.0],
+                            src_shift_func='ffs_shift2', det_shift_func='const_shift2', det_axis_init=[2.0, -1.0],
+                            translation=[0.5, -1.5], check_bounds=False),
+    'ConeBeamGeometry': dict(src_radius=3.0, det_radius=2.0, det_curvature_radius=(4.5, None), pitch=1.5, axis=[1.0, 2.0, 2.0],
+                             src_shift_func='ffs_shift3', det_shift_func='const_shift3', offset_along_axis=0.75,
+                             src_to_det_init=[2.0, -2.0, 1.0], det_axes_init=[[2.0, 1.0, -2.0], [1.0, 2.0, 2.0]],
+                             translation=[0.5, -1.5, 2.0], check_bounds=False),
+}
+_SLICE_VARIANTS = {      # further values of single keywords, each combined with all the others
+    'FanBeamGeometry': [dict(det_curvature_radius=None), dict(src_shift_func='const_shift2', det_shift_func='ffs_shift2')],
+    'ConeBeamGeometry': [dict(det_curvature_radius=None), dict(det_curvature_radius=(4.5, 4.5)),
+                         dict(src_shift_func='const_shift3', det_shift_func='ffs_shift3'), dict(pitch=-0.5, offset_along_axis=-1.25)],
+    'Parallel2dGeometry': [dict(check_bounds=True)], 'Parallel3dAxisGeometry': [dict(check_bounds=True)],
+}
+_SLICE_COVERAGE = {}
+
+
+def _sliceable_classes():
+    """Geometry classes that define __getitem__, and their optional constructor parameters by introspection
+    (named parameters with defaults; the **kwargs ones are those the class pops or passes on, listed in _SLICE_KW)."""
+    import inspect
+    import odl
+    out = {}
+    for name in dir(odl.tomo):
+        cls = getattr(odl.tomo, name)
+        if inspect.isclass(cls) and issubclass(cls, odl.tomo.Geometry) and '__getitem__' in vars(cls):
+            sig = inspect.signature(cls.__init__)
+            named = [p.name for p in sig.parameters.values()
+                     if p.name not in ('self', 'apart', 'dpart') and p.kind == p.POSITIONAL_OR_KEYWORD]
+            src = inspect.getsource(cls.__init__)
+            import re
+            popped = re.findall(r"kwargs\.(?:pop|get)\('(\w+)'", src)
+            out[name] = sorted(set(named + popped + ['translation', 'check_bounds']))
+    return out
+
+
+def _slice_ctor(name, kw):
+    parts = []
+    for k, v in kw.items():
+        parts.append('%s=%s' % (k, v if isinstance(v, str) and v.endswith(('shift2', 'shift3')) else repr(v)))
+    dp = 'dp1' if name in ('Parallel2dGeometry', 'FanBeamGeometry') else 'dp2'
+    return 'odl.tomo.%s(ap, %s, %s)' % (name, dp, ', '.join(parts))
+
+
+def _slice_compare(g, h, angles, dparams):
+    """List of (what, angle) where the slice h differs from the full geometry g."""
+    bad = []
+    for a in angles:
+        fns = [('rotation_matrix', lambda x: x.rotation_matrix(a)), ('det_refpoint', lambda x: x.det_refpoint(a))]
+        if hasattr(g, 'src_position'):
+            fns.append(('src_position', lambda x: x.src_position(a)))
+        fns.append(('det_axes', lambda x: x.det_axes(a) if hasattr(x, 'det_axes') else x.det_axis(a)))
+        for u in dparams:
+            fns.append(('det_point_position', lambda x, u=u: x.det_point_position(a, u)))
+            fns.append(('det_to_src', lambda x, u=u: x.det_to_src(a, u)))
+        for what, f in fns:
+            try:
+                if not np.allclose(f(h), f(g), atol=1e-10):
+                    bad.append((what, float(a)))
+            except Exception as e:      # noqa
+                bad.append((what + ': ' + type(e).__name__, float(a)))
+    if h.check_bounds != g.check_bounds:
+        bad.append(('check_bounds', None))
+    for attr in ('translation', 'src_radius', 'det_radius', 'pitch', 'offset_along_axis', 'det_curvature_radius'):
+        if hasattr(g, attr) and not np.array_equal(np.asarray(getattr(h, attr), dtype=object), np.asarray(getattr(g, attr), dtype=object)):
+            bad.append((attr, None))
+    return bad
+
+
+def _probe_slicing_keywords(rng, tier):
+    """Slicing consistency with EVERY optional constructor keyword set to a distinctive non-default value (source and
+    detector shift functions are different functions): geom[idx] agrees with geom at the angles it retains in
+    rotation_matrix, det_refpoint, src_position, det_axes, det_point_position, det_to_src, and carries the same
+    check_bounds / radii / pitch / offset / curvature; several index forms."""
+    out = []
+    classes = _sliceable_classes()
+    pre = ("import numpy as np, odl, sys\nsys.path.insert(0, %r)\n"
+           "from harness.c19 import ffs_shift2, ffs_shift3, const_shift2, const_shift3, _slice_compare\n"
+           "ap = odl.uniform_partition(-4.0, 4.0, 8); dp1 = odl.uniform_partition(-4.0, 4.0, 8)\n"
+           "dp2 = odl.uniform_partition([-4.0, -4.0], [4.0, 4.0], [8, 6])\n" % C.VERIF)
+    for name, params in sorted(classes.items()):
+        base = _SLICE_KW.get(name)
+        _SLICE_COVERAGE[name] = {'constructor_keywords': params,
+                                 'covered': sorted(base) if base else [],
+                                 'uncovered': sorted(set(params) - set(base or {}))}
+        if base is None:
+            out.append(C.Probe(False, 'slice-keywords-unknown-class-' + name,
+                               '%s defines __getitem__ but the slicing probe has no keyword table for it' % name, None))
+            continue
+        variants = [{}] + _SLICE_VARIANTS.get(name, [])
+        if tier != 'quick':       # leave one keyword at its default at a time
+            variants += [{'__drop__': k} for k in base if k not in ('src_radius', 'det_radius')]
+        for var in variants:
+            kw = dict(base)
+            if '__drop__' in var:
+                kw.pop(var['__drop__'])
+            else:
+                kw.update(var)
+            ctor = _slice_ctor(name, kw)
+            two = name in ('Parallel3dAxisGeometry', 'ConeBeamGeometry')
+            for idx in (['1:7', '2:8:2', '3'] if tier == 'quick' else ['1:7', '2:8:2', '3', '::3', '-3:', '[0, 2, 5]', '5:6']):
+                dps = [(round(rng.uniform(-3, 3), 3), round(rng.uniform(-1, 1), 3)) if two else round(rng.uniform(-3, 3), 3)
+                       for _ in range(2)]
+                rp = (pre + "g = %s\ntry:\n    h = g[%s]\nexcept Exception as e:\n    h = None; observed = repr(e)\n"
+                      "if h is not None:\n    angles = list(np.atleast_1d(h.angles))\n"
+                      "    lo_, hi_ = float(h.motion_params.min_pt[0]), float(h.motion_params.max_pt[0])\n"
+                      "    angles += [lo_, hi_, 0.5 * (lo_ + hi_)]\n"
+                      "    observed = _slice_compare(g, h, angles, %r)\n"
+                      "    ok = (observed == [])\nelse:\n    ok = False\nexpected = []\n" % (ctor, idx, dps))
+                if idx.startswith('['):
+                    continue_ = False
+                env = {}
+                try:
+                    exec(rp, env)
+                    ok, obs = env['ok'], env.get('observed')
+                except Exception as e:      # noqa
+                    ok, obs = False, repr(e)
+                only_cb = bool(obs) and isinstance(obs, list) and all(w == 'check_bounds' for w, _ in obs)
+                k = 'slice-keywords-' + name
+                if only_cb:
+                    k = 'getitem-drops-check_bounds'
+                out.append(C.Probe(bool(ok), k, '%s[%s] agrees with the full geometry at the retained angles'
+                                   % (ctor, idx), rp, {'differences': str(obs)[:300]}))
+    return out
+
+
+def extra_coverage():
+    if not _SLICE_COVERAGE:
+        try:
+            C.setup_impl_path()
+            _probe_slicing_keywords(C.rng_for(PID, 0), 'quick')
+        except Exception:       # noqa
+            pass
+    return {'slicing_constructor_keywords': dict(_SLICE_COVERAGE)}
+
+
 def _probe_frommatrix(rng, tier):
     """frommatrix with a rotation matrix M and a translation t: every absolute vector is t + M (default geometry's
     vector) -- for the classes whose motion commutes with M in that sense (2-d classes; axis-oriented 3-d classes)."""
@@ -1649,6 +1811,7 @@ def probes(rng, tier):
                                                                          [np.shape(c_) for c_ in comps(u_)], tuple(shp)),
                                        None))
     out.extend(_probe_slicing(rng, tier))
+    out.extend(_probe_slicing_keywords(rng, tier))
     out.extend(_probe_frommatrix(rng, tier))
     out.extend(_probe_frommatrix_general(rng, tier))
     out.extend(_probe_factories(rng, tier))
@@ -1664,7 +1827,7 @@ def search(rng, broken):
     failed: run the oracle families that speak about the anchored formulas on fresh, larger samples and return the
     first concrete failing input."""
     known = C.load_findings(PID)
-    for fam in (_probe_frommatrix_general, _probe_frommatrix, _probe_curved, _probe_factory_attributes, _probe_factories,
+    for fam in (_probe_slicing_keywords, _probe_frommatrix_general, _probe_frommatrix, _probe_curved, _probe_factory_attributes, _probe_factories,
                 _probe_slicing, _probe_shapes, _probe_misc):
         try:
             for p in fam(rng, 'thorough'):
